@@ -44,9 +44,12 @@ def run(tier, seed, replay=None):
     ra = vlib.tlc(SPEC, "ControlSession_lock_asis.cfg", wd, workers=1, timeout=600)
     if ra.violated != "NoDeadlock":
         raise vlib.Inconclusive("the as-found lock model did not exhibit the deadlock: exit %s\n%s" % (ra.exit, ra.output[-1500:]))
+    rsl = vlib.tlc(SPEC, "ControlSession_lock_scanleak.cfg", wd, workers=2, timeout=600)
+    if rsl.violated != "NoDeadlock":
+        raise vlib.Inconclusive("the lock model with the scan re-check leak did not violate NoDeadlock: exit %s\n%s" % (rsl.exit, rsl.output[-1200:]))
     wit = vlib.witnesses(SPEC, "ControlSession_lines.cfg", ["W_NoDiskOnlyJson"] if quick else ["W_NoLenient", "W_NoError2", "W_NoDiskOnlyJson"], wd, workers=1)
     if not quick:
-        wit += vlib.witnesses(SPEC, "ControlSession_sess_quick.cfg", ["W_NoRescanDone", "W_NoTwoBusy"], wd, workers=4)
+        wit += vlib.witnesses(SPEC, "ControlSession_sess_quick.cfg", ["W_NoRescanDone", "W_NoTwoBusy", "W_NoSharedScanTwice"], wd, workers=4)
     lines = os.path.join(rl.dir, "lines.ndjson")
     sessions = os.path.join(rs.dir, "sessions.ndjson")
     nlines = sum(1 for _ in open(lines))
@@ -58,7 +61,7 @@ def run(tier, seed, replay=None):
     if quick:
         args += ["-instances", "2", "-pairmode", "split", "-budget", "35s", "-maxmixed", "200"]
     else:
-        args += ["-instances", "6", "-pairmode", "both", "-allwedges", "-budget", "800s"]
+        args += ["-instances", "6", "-pairmode", "both", "-allwedges", "-budget", "800s", "-diskrounds", "40"]
     if replay:
         args += ["-replay", replay]
     res = vlib.harness_json(vctl, args, wd, timeout=3000)
@@ -89,6 +92,7 @@ def run(tier, seed, replay=None):
                 {"cfg": "sessions", "generated": rs.generated, "distinct": rs.distinct, "wall_s": round(rs.wall, 1)},
                 {"cfg": "ControlSession_mixed.cfg", "generated": rm.generated, "distinct": rm.distinct},
                 {"cfg": "ControlSession_sess_stale.cfg", "violated": rst.violated, "note": "lead: a dispatcher that keeps the decoded request across lines breaks LineIndependence; replayed as the mixed sessions"},
+                {"cfg": "ControlSession_lock_scanleak.cfg", "violated": rsl.violated, "note": "lead: two scans of one shared disk-only unit, the second returns without unlocking; replayed as the disk-only race phase"},
                 {"cfg": "ControlSession_lock_asis.cfg", "violated": ra.violated, "note": "lead: the as-found findUnit/scanForUnit locking deadlocks; replayed as the disk-only unit classes"}],
     }
     return v.finish("exploration", cov, assumptions=[
